@@ -30,7 +30,7 @@ def spec_c13(tier, seed):
                 prefixes = [p + [x] for p in prefixes for x in range(a)]
             out += [{'w': w, 'ops': ops, 'parity': parity, 'prefix': p} for p in prefixes]
         return out
-    hist_parts = (hp(2, 5, 1) + hp(3, 4, 1)) if q else (hp(2, 7, 2) + hp(3, 6, 2) + hp(4, 5, 2))
+    hist_parts = (hp(2, 5, 1) + hp(3, 4, 1)) if q else (hp(2, 7, 2) + hp(3, 5, 2) + hp(4, 4, 2))
     return dict(
         conds=[
             Cond('c13_streamids', 'c_alloc_step', timeout=120),
@@ -45,7 +45,7 @@ def spec_c13(tier, seed):
                     'histories of allocate/register/finish on a W-bit id space vs the reference allocator incl. the '
                     'failure condition; (c) real endpoints: first ids 1/2 and REJECTED on reuse of a live id with '
                     'symbolic 31-bit ids and 4 request types',
-        bounds=['(a) |live ids| <= 3, ids and cursor full 31-bit', '(b) quick: W=2 with <=5 operations, W=3 with <=4; thorough: W=2/7 ops, W=3/6 ops, W=4/5 ops; both parities; partitioned by the first 1 (quick) / 2 (thorough) operations',
+        bounds=['(a) |live ids| <= 3, ids and cursor full 31-bit', '(b) quick: W=2 with <=5 operations, W=3 with <=4; thorough: W=2/7 ops, W=3/5 ops, W=4/4 ops; both parities; partitioned by the first 1 (quick) / 2 (thorough) operations',
                 '(c) one peer-opened and one own live stream, ids from {1,3,2^31-1,2,2^31-2}; availability check itself at full width on a symbolic table of <=3 ids'],
         outside=['exhaustion at full width (needs 2^30 live streams)', 'more than 3 live ids in the inductive step'],
         functions=['rsocket.stream_control.StreamControl.allocate_stream', 'rsocket.stream_control.StreamControl._increment_stream_id',
